@@ -138,6 +138,87 @@ pub fn main(tier: Option<&str>) {
     }
     run.sample(json!({"sort_peers_by_address": {"subset_mask": 1023, "expected_entries": 5}}));
 
+    // 2b. the selection a caller actually gets: Network::get_all_close_peers_in_range_or_close_group over what the
+    // network found (the harness is the network and answers GetClosestPeersToAddressFromNetwork): every number of found
+    // peers 3..=10, the caller's own id absent or at every rank of the found list, as a client (own id never selected)
+    // and as a node (own id counts), the found list handed over nearest-first and in reverse
+    {
+        use ant_networking::verif_hooks::NetworkSwarmCmd;
+        let expanded = CLOSE_GROUP_SIZE + CLOSE_GROUP_SIZE / 2;
+        let t = &uni[8].1;
+        let mut selections = 0u64;
+        for n in 3..=10usize {
+            for own_rank in (0..n).map(Some).chain(std::iter::once(None)) {
+                for client in [true, false] {
+                    for reversed in [false, true] {
+                        let mut rig = crate::client_rig::ClientRig::new();
+                        let me = rig.network.peer_id();
+                        // n found peers, nearest first, the caller at `own_rank`
+                        let mut pool: Vec<PeerId> = peers.iter().cloned().chain((0..4u8).map(|i| rigs::fixtures::peer_id(90 + i))).filter(|p| *p != me).collect();
+                        pool.sort_by_key(|p| xor_distance(&t.as_bytes(), &NetworkAddress::from_peer(*p).as_bytes()));
+                        let mut all: Vec<PeerId> = pool.iter().cloned().chain(std::iter::once(me)).collect();
+                        all.sort_by_key(|p| xor_distance(&t.as_bytes(), &NetworkAddress::from_peer(*p).as_bytes()));
+                        // choose n peers whose sorted list has `me` at own_rank: take own_rank others nearer than me, the rest farther
+                        let my_pos = all.iter().position(|p| *p == me).unwrap();
+                        let found: Vec<PeerId> = match own_rank {
+                            None => pool.iter().take(n).cloned().collect(),
+                            Some(r) => {
+                                let nearer: Vec<PeerId> = all[..my_pos].iter().rev().take(r).cloned().collect();
+                                let farther: Vec<PeerId> = all[my_pos + 1..].iter().take(n - 1 - nearer.len().min(r)).cloned().collect();
+                                if nearer.len() < r {
+                                    continue; // not enough peers nearer than the caller for this rank
+                                }
+                                let mut f: Vec<PeerId> = nearer.into_iter().chain(std::iter::once(me)).chain(farther).collect();
+                                f.sort_by_key(|p| xor_distance(&t.as_bytes(), &NetworkAddress::from_peer(*p).as_bytes()));
+                                if f.len() != n {
+                                    continue;
+                                }
+                                f
+                            }
+                        };
+                        let mut handed = found.clone();
+                        if reversed {
+                            handed.reverse();
+                        }
+                        let mut considered: Vec<PeerId> = found.iter().filter(|p| !(client && **p == me)).cloned().collect();
+                        considered.sort_by_key(|p| xor_distance(&t.as_bytes(), &NetworkAddress::from_peer(*p).as_bytes()));
+                        let want: Option<Vec<PeerId>> = if considered.len() < CLOSE_GROUP_SIZE { None } else { Some(considered.iter().take(expanded).cloned().collect()) };
+                        let net = rig.network.clone();
+                        let key = (*t).clone();
+                        let slot = rig.start(async move { net.get_all_close_peers_in_range_or_close_group(&key, client).await.map_err(|e| format!("{e:?}")) });
+                        rig.run_until_blocked();
+                        for cmd in std::mem::take(&mut rig.other_cmds) {
+                            if let NetworkSwarmCmd::GetClosestPeersToAddressFromNetwork { sender, .. } = cmd {
+                                let _ = sender.send(handed.clone());
+                            }
+                        }
+                        rig.run_until_blocked();
+                        let got = slot.lock().unwrap().take();
+                        selections += 1;
+                        let desc = json!({"op":"network-closest-peers","found":n,"caller_rank_among_found":own_rank,"client":client,"handed_over_reversed":reversed});
+                        run.case(format!("netclosest:{n}:{own_rank:?}:{client}:{reversed}").as_bytes(), true);
+                        match (got, want) {
+                            (None, _) => run.violation("closest-peers", "network-selection/never-answered", format!("the selection never completed ({desc})"), desc.clone()),
+                            (Some(Ok(g)), Some(w)) => {
+                                if g != w {
+                                    run.violation("closest-peers", "network-selection/order-or-count", format!("{} peers selected, the {} nearest of the {} eligible in ascending order are expected ({desc})", g.len(), w.len(), considered.len()), desc.clone());
+                                }
+                            }
+                            (Some(Ok(g)), None) => run.violation("closest-peers", "network-selection/too-few-not-reported", format!("only {} eligible peers (< close group) but {} were returned ({desc})", considered.len(), g.len()), desc.clone()),
+                            (Some(Err(e)), Some(_)) => run.violation("closest-peers", "network-selection/spurious-error", format!("{} eligible peers but the selection failed with {e} ({desc})", considered.len()), desc.clone()),
+                            (Some(Err(e)), None) => {
+                                if !e.contains("NotEnoughPeers") {
+                                    run.violation("closest-peers", "network-selection/other-error", format!("{e} ({desc})"), desc.clone());
+                                }
+                            }
+                        }
+                    }
+                }
+            }
+        }
+        run.extra("network_closest_peer_selections", json!(selections));
+    }
+
     // 3. range filters and closest-peer selection with every bound around every distance
     let ten_with_addrs: Vec<(PeerId, Vec<libp2p::Multiaddr>)> = peers.iter().map(|p| (*p, vec!["/ip4/127.0.0.1/udp/1/quic-v1".parse().unwrap()])).collect();
     for (ti, t) in targets.iter().enumerate() {
